@@ -3,6 +3,7 @@ package props
 import (
 	"go/token"
 	"go/types"
+	"sort"
 	"strings"
 
 	"golang.org/x/tools/go/ssa"
@@ -230,8 +231,15 @@ func c04ServerOffsets(c *core.Ctx) {
 		}
 	}
 	n := 0
+	seenSite := map[ssa.CallInstruction]bool{}
+	var hfns []*ssa.Function
 	for fn := range handlerFns(c) {
-		for _, bc := range backendCalls(fn) {
+		hfns = append(hfns, fn)
+	}
+	sort.Slice(hfns, func(i, j int) bool { return hfns[i].String() < hfns[j].String() })
+	for _, fn := range hfns {
+		// the call may sit in a helper that several handlers share: it counts once per handler that reaches it
+		for _, bc := range backendCallsDeep(fn) {
 			if bc.Method != "PushBlobChunkedResume" {
 				continue
 			}
@@ -240,6 +248,11 @@ func c04ServerOffsets(c *core.Ctx) {
 				continue // upload-info: ask the backend
 			}
 			n++
+			if seenSite[bc.Call] {
+				continue
+			}
+			seenSite[bc.Call] = true
+			fn := bc.In
 			ok := false
 			if ex, isEx := facts.Resolve(off).(*ssa.Extract); isEx && ex.Index == 0 {
 				if call, isCall := ex.Tuple.(*ssa.Call); isCall && chunkRange != nil && call.Call.StaticCallee() == chunkRange {
